@@ -164,6 +164,15 @@ func c14CheckMap(in c14In) h.Result {
 		r.Fail("elligator.EdwardsFlavor:wrong-point", "form=%s a=%x b=%x r=%x got=%x want=%x exceptional=%v",
 			in.Form, []byte(in.A), []byte(in.B), ref.FEncode(u), got, want.Encode(), exc)
 	}
+	if !r.Failed() {
+		// ... including as an operand of an addition (which reads T)
+		r.Eval(1)
+		var sum curve.EdwardsPoint
+		sum.Add(p, curve.ED25519_BASEPOINT_POINT)
+		if g, w := c14Enc(&sum), ref.Add(want, ref.Base).Encode(); !bytes.Equal(g, w) {
+			r.Fail("elligator.EdwardsFlavor:result-unusable-as-operand", "r=%x P+B got=%x want=%x (inconsistent T coordinate)", ref.FEncode(u), g, w)
+		}
+	}
 	// the returned point is usable: its cofactor multiple is the reference's,
 	// and lies in the prime-order subgroup (reference arithmetic)
 	var p8 curve.EdwardsPoint
